@@ -172,7 +172,7 @@ def run(tier):
         CURVE: per_key(res["curve_p"], 6 if q else 120, noal) + per_key(res["curve_s"], 6 if q else 100, noal),
         PAIR: per_key(res["pair_single"], 4 if q else 20) + per_key(res["pair_sum"], 3 if q else 40) + per_key(res["pair_gt"], 3 if q else 40, noal)
               + per_key(res["pair_gtview"], 2 if q else 12),
-        CODEC: per_key(res["codec_enc"], 12 if q else 400) + per_key(res["codec_samp"], 6 if q else 200),
+        CODEC: per_key(res["codec_enc"], 12 if q else 400) + per_key(res["codec_samp"], 40 if q else 400),
         MAR: per_key(res["mar_obj"], 3 if q else 60) + per_key(res["mar_sweep"], 1 if q else 4),
         LQ: per_key(res["lq"], 3 if q else 30),
         WK: per_key(res["wk_deleg"], 2 if q else 30) + per_key(res["wk_sig"], 2 if q else 30) + per_key(res["wk_adjust"], 2 if q else 30),
